@@ -118,8 +118,10 @@ class GDumpParser(object):
         # Pair up boxed types and class records
         for name, boxed in self._boxed_types.items():
             self._pair_boxed_type(boxed)
+        skipped_get_types = []
         for name, pointer in self._pointer_types.items():
-            self._pair_pointer_type(pointer)
+            if self._pair_pointer_type(pointer) is False:
+                skipped_get_types.append(pointer.get_type)
         for node in list(self._namespace.values()):
             if isinstance(node, (ast.Class, ast.Interface)):
                 self._find_class_record(node)
@@ -137,6 +139,12 @@ class GDumpParser(object):
                 assert ns is self._namespace
                 get_type_func = self._namespace.get(name)
                 assert get_type_func, name
+                to_remove.append(get_type_func)
+        # The get_type function of a type that was skipped is not API either
+        for get_type_name in skipped_get_types:
+            (ns, name) = self._transformer.split_csymbol(get_type_name)
+            get_type_func = self._namespace.get(name)
+            if get_type_func is not None and get_type_func not in to_remove:
                 to_remove.append(get_type_func)
         for node in to_remove:
             self._namespace.remove(node)
@@ -557,11 +565,13 @@ different --identifier-prefix.""" % (xmlnode.attrib['name'], self._namespace.ide
         pair_node = self._namespace.get(name)
         if pair_node is None:
             # Skip the "bare" pointer type for backward compatibility
-            return
+            return False
         elif isinstance(pair_node, (ast.Record, ast.Union)):
             pair_node.add_gtype(pointer.gtype_name, pointer.get_type)
             assert pointer.c_symbol_prefix is not None
             pair_node.c_symbol_prefix = pointer.c_symbol_prefix
+        else:
+            return False
 
     def _find_class_record(self, cls):
         pair_record = None
